@@ -3,8 +3,33 @@ package config
 import (
 	"encoding/json"
 	"fmt"
+	"net"
 	"reflect"
+	"strconv"
 )
+
+// A listen address has to be something the process can listen on at its next start: "host:port"
+// (host may be empty), with a port number or service name that resolves.
+func verifyListenAddress(name, addr string) error {
+	if addr == "" {
+		return fmt.Errorf("%s cannot be empty", name)
+	}
+	_, port, err := net.SplitHostPort(addr)
+	if err != nil {
+		return fmt.Errorf("%s is not a host:port address: %v", name, err)
+	}
+	if n, err := strconv.Atoi(port); err == nil {
+		if n < 0 || n > 65535 {
+			return fmt.Errorf("%s has a port outside 0-65535: %d", name, n)
+		}
+		return nil
+	}
+	// a service name ("http"), or empty (any free port)
+	if _, err := net.LookupPort("tcp", port); err != nil {
+		return fmt.Errorf("%s has an unusable port: %v", name, err)
+	}
+	return nil
+}
 
 func (c *Config) verify() error {
 	if err := checkIsSetRecursive(reflect.ValueOf(c)); err != nil {
